@@ -253,7 +253,38 @@ fn judge_corrupted(acc: &mut Acc, class: &str, frame: &[u8]) {
     }
 }
 
+/// A block whose length does not fit the frame's 32-bit length field (2^32 + 5 zero bytes; the buffer is never written,
+/// so it costs address space, not memory): the frame cannot record the true length, so only an error is acceptable.
+/// Release lane only (4 GiB through the deflater: under two seconds optimised, far longer in a debug build).
+fn block_beyond_the_length_field(acc: &mut Acc) {
+    let n = (1usize << 32) + 5;
+    let big = vec![0u8; n];
+    acc.case(Some(n as u64));
+    let r = guarded(
+        || {
+            let mut v: Vec<u8> = Vec::new();
+            v.write_compressed(&big, Compression::new(1)).map(|_| v)
+        },
+        |_| None,
+    );
+    let detail = |got: String| J::obj().with("check", J::s("C16")).with("mode", J::s("content")).with("what", J::s("block of 2^32 + 5 bytes")).with("got", J::s(got));
+    match r {
+        Outcome::Done(Err(e)) if sbase::classify(&e).variant == "LengthTooLarge" => acc.count("block_beyond_the_length_field_rejected"),
+        Outcome::Done(Err(e)) => acc.violation("C16|length_field|other_error".to_string(), detail(sbase::classify(&e).variant.to_string())),
+        Outcome::Done(Ok(frame)) => {
+            let mut input = SliceInput::new(&frame);
+            let announced = input.read_var_u32().unwrap_or(0);
+            acc.violation("C16|length_field|frame_written_with_a_truncated_length".to_string(), detail(format!("Ok, frame of {} bytes announcing {announced} uncompressed bytes", frame.len())))
+        }
+        Outcome::Panicked(p) => acc.violation("C16|length_field|panic".to_string(), detail(monitors::normalise_site(&p.site))),
+        Outcome::StepBudget(_) => {}
+    }
+}
+
 pub fn c16(ctx: &mut Ctx, acc: &mut Acc) -> i32 {
+    if !cfg!(debug_assertions) && ctx.shard == 0 {
+        block_beyond_the_length_field(acc);
+    }
     let sizes: Vec<usize> = if ctx.thorough() {
         vec![0, 1, 2, 17, 100, 1000, 4096, 65_535, 65_536, 100_000, 1 << 20, 16 << 20]
     } else {
